@@ -9,7 +9,11 @@ def run(tier):
     rnd = common.rng("c06")
     binary = common.build("asan")
     rep = corpus.representative(rnd, 1, cap=170)
-    lines = sorted(set(c["text"] for c in rep))
+    # the option-sensitive lines (SMART spelling rule, stack-pointer index, no-base scale) and lines that set per-line option bits
+    # (short / decimal immediates) are always members: state leaking from one line into the next of the same call shows on them
+    PROBES = ["mov rax, 0x000000007fffffff", "mov rcx, 0x7fffffff", "mov rdx, 2147483647", "mov r9, 0x0000000000000001", "lea r15, [rax+rsp]", "lea r14, [2*rax]",
+              "add rcx, 5", "shl rdx, 3", "mov rcx, 0x10", "mov qword [rbx+rsp], 5", "vpaddb ymm1, ymm2, [4*r12+8]"]
+    lines = sorted(set(c["text"] for c in rep) | set(PROBES))
     masks = ["211", "000", "111"]
     alone = {m: corpus.accepted_alone(binary, lines + corpus.SKIP_LINES, m) for m in masks}
     R = [l for l in lines if all(l in alone[m] for m in masks)]
@@ -26,9 +30,11 @@ def run(tier):
 
     # (1) all ordered pairs (state leak l1 -> l2), default options; thorough: all three masks
     items, meta = [], []
-    for m in (masks if full else masks[:1]):
+    for m in masks:
         for a in R + skip[:3]:
             for b in R + skip[:3]:
+                if not full and m != masks[0] and a not in PROBES and b not in PROBES:
+                    continue
                 items.append((m, a + "\n" + b, 0))
                 meta.append((m, (a, b)))
     res = common.run_lines(binary, items, tag="c06p")
